@@ -375,6 +375,17 @@ def conn_check(rng, drops=False, repeat=False):
     return spec
 
 
+def conn_check_two(rng):
+    """C17 with another YncaApi object checking ANOTHER receiver at the same time (fast replies on both, so that the recorded finding does
+    not interfere): each check reports its own receiver's model name and zones"""
+    def dev(tag):
+        zones = [z for z in ("MAIN", "ZONE2", "ZONE3", "ZONE4") if rng.random() < 0.5]
+        return {"type": "scripted", "latency": rng.choice([0.0, 0.02, 0.06]), "avail": {z: "Ready" for z in zones}, "model": f"RX-{tag}{rng.randint(100, 999)}"}, zones
+    d1, z1 = dev("A")
+    d2, z2 = dev("B")
+    return {"kind": "conn_check", "device": d1, "zones": z1, "other_device": d2, "other_zones": z2, "other_delay": rng.choice([0.0, 0.0, 0.05, 0.31, 0.62]), "final_wait": 6}
+
+
 def subunit_init(rng, T):
     """C06 flavour: one subunit's initialize() on a live connection"""
     c = rng.choice(T["classes"])
